@@ -79,7 +79,7 @@ pub fn run(cfg: &Cfg) -> i32 {
             }
         }
     }
-    let nprog: usize = std::env::var("VH_NPROG").ok().and_then(|x| x.parse().ok()).unwrap_or(cfg.pick(500, 8000));
+    let nprog: usize = std::env::var("VH_NPROG").ok().and_then(|x| x.parse().ok()).unwrap_or(cfg.pick(2500, 30000));
     let total = sweep.len() + nprog;
     for u in out.resume_from..total {
         out.checkpoint(u);
